@@ -17,7 +17,7 @@ from typing import Any, Callable, Dict, List, Optional
 
 from .rng import Stream
 
-PROFILES = ("steady", "slow", "fast", "jumpy", "skew", "stall", "backjump")
+PROFILES = ("steady", "slow", "fast", "jumpy", "skew", "stall", "backjump", "wallonly")
 
 
 class SimClock:
@@ -75,6 +75,11 @@ class SimClock:
                 self._fire("jump_back")
             else:
                 self.advance(s.randint(0, 2_000_000))
+        elif p == "wallonly":
+            # wall clock wanders (forwards and backwards); elapsed (monotonic) time is steady
+            self.mono_ns += 1_000
+            self.wall_ns += s.randint(-3_600_000_000_000, 3_600_000_000_000)
+            self._fire("wall_jump")
         elif p == "skew":
             d = s.randint(0, 5_000_000)
             self.wall_ns += d * 3
